@@ -4,12 +4,14 @@
 -- expect: true
 -- expect: le called
 -- expect: false
--- expect: false	attempt to compare table with number
+-- expect[jit]: false	attempt to compare table with number
+-- expect[5.3]: false	attempt to index a number value
 -- expect: false	attempt to compare number with string
 -- expect: false	attempt to compare two table values
 -- expect: false	attempt to compare nil with number
 -- expect: false	attempt to compare two boolean values
--- expect: false	attempt to compare two table values
+-- expect[jit]: false	attempt to compare two table values
+-- expect[5.3]: false	attempt to compare number with nil
 -- expect: true	true	false	true
 -- expect: true
 local mt = {}
